@@ -94,7 +94,7 @@ impl Sanitizer {
         let mut result = input.to_string();
 
         if self.lowercase {
-            result = result.to_lowercase();
+            result = result.to_ascii_lowercase();
         }
 
         result = self.replace_non_alphanumeric(&result);
@@ -104,7 +104,7 @@ impl Sanitizer {
         }
 
         if let Some(max_len) = self.max_length {
-            result.truncate(max_len);
+            result = result.chars().take(max_len).collect();
         }
 
         if let Some(sep) = &self.separator {
@@ -112,6 +112,11 @@ impl Sanitizer {
                 .trim_start_matches(sep)
                 .trim_end_matches(sep)
                 .to_string();
+        }
+
+        // Truncation can cut "00a" down to "00": re-establish the no-leading-zeros rule
+        if !self.keep_zeros && self.max_length.is_some() {
+            result = self.remove_leading_zeros(&result);
         }
 
         result
@@ -148,7 +153,7 @@ impl Sanitizer {
         let mut last_was_sep = false;
 
         for ch in input.chars() {
-            if ch.is_alphanumeric() {
+            if ch.is_ascii_alphanumeric() {
                 result.push(ch);
                 last_was_sep = false;
             } else if !last_was_sep {
